@@ -69,7 +69,7 @@ def frame_monitor_factory(dumps):
             if ro and op[0] == 'close' and c[0] != 'OK':
                 part.violation('monitor', f'CLOSE of a read-only selection answered {c[0]}, not OK', dict(case, at=j), signature='ro-close')
             if ro and prev is not None and cur is not None:
-                if prev[st[i][0]][0] and op[0] in ('store', 'expunge', 'copy', 'close') or (op[0] == 'fetch' and 'BODY[]' in op[4]):
+                if prev[st[i][0]][0] and op[0] in ('store', 'expunge', 'copy', 'close') or (op[0] == 'fetch' and l3.sets_seen(op[4])):
                     nontrivial = True
                 for b in range(3):
                     before, after = prev[b], cur[b]
